@@ -348,7 +348,7 @@ theorem qualMatch_eq_sameQual (n : NameId) (spq nq : Option Str) : qualMatch n s
   unfold qualMatch sameQual
   rcases hn : n.spq with _ | _ | ⟨a, as⟩ <;> rcases spq with _ | _ | ⟨b, bs⟩ <;>
     rcases hq : n.nq with _ | _ | ⟨c, cs⟩ <;> rcases nq with _ | _ | ⟨d, ds⟩ <;>
-    simp [normF, truthy]
+    simp [normF, truthy, Bool.beq_eq_decide_eq]
 
 theorem decode_good {p : Str} (g : GoodP p) :
     (p = [] ∧ decode p = .ok {}) ∨ (∃ n, pieceNid p = some n ∧ decode p = .ok n) := by
